@@ -61,6 +61,8 @@ type Obligation struct {
 	fn     *ssa.Function
 	M      int
 	funs   map[string]string // signature table of the term store the terms live in
+	file   string            // query file (assigned on first use)
+	FProp  string            // finding queries: the property the recorded finding belongs to
 }
 
 type Exec struct {
@@ -870,6 +872,19 @@ func (x *Exec) step(st *State, in ssa.Instruction) {
 			x.safety(st, in, "nil", Neq(p.Idx[0], IntLit(0)))
 		}
 		pl := ptrPlace(p).field(f.Name())
+		if detachable(i) {
+			// &local.field of struct type, stored as an object pointer, where the local (an escaped copy of a
+			// by-value parameter or variable) is never accessed through this field again: the field is moved
+			// into an object of its own (Go semantics: the pointer keeps the enclosing variable alive; no one
+			// else can observe the difference because every other access to the field happens before)
+			ft := f.Type()
+			cur := loadPlace(st.heap, pl, ft)
+			obj := x.allocObj(st, ft)
+			storePlace(st.heap, ptrPlace(obj), ft, cur)
+			obj.Typ = i.Type()
+			st.env[i] = obj
+			break
+		}
 		st.env[i] = Val{K: VPtr, Typ: i.Type(), Prefix: pl.Prefix, Idx: pl.Idx}
 	case *ssa.Field:
 		sv := x.get(st, i.X)
@@ -914,6 +929,20 @@ func (x *Exec) step(st *State, in ssa.Instruction) {
 		v := x.get(st, i.Val)
 		x.guardCheck(st, in, p.Prefix)
 		et := p.Typ.Underlying().(*types.Pointer).Elem()
+		if n, ok := et.(*types.Named); ok && n.Obj().Pkg() != nil && n.Obj().Pkg().Path() == "sync" && n.Obj().Name() == "Map" {
+			// assignment of a sync.Map value: only the zero value can be written down in Go (sync.Map{}),
+			// copying a used one is a vet error; the ghost map of the place becomes empty
+			if c, isConst := i.Val.(*ssa.Const); !isConst || c.Value != nil {
+				unsupported("copy of a sync.Map value")
+			}
+			pl := ptrPlace(p)
+			if len(pl.Idx) != 1 {
+				unsupported("sync.Map assignment to a nested place")
+			}
+			dom := st.heap.Get(pl.Prefix+"#smdom", 2, SBool)
+			st.heap.Set(pl.Prefix+"#smdom", dom.RowConst(pl.Idx[0], False()))
+			break
+		}
 		storePlace(st.heap, ptrPlace(p), et, x.convIface(v, et))
 	case *ssa.Lookup:
 		x.lookup(st, i)
@@ -1642,4 +1671,78 @@ func (x *Exec) guardCheck(st *State, in ssa.Instruction, fam string) {
 			}
 		}
 	}
+}
+
+// detachable: fa = &X.f where X is a local allocation used only through field addresses, loads and
+// whole-value stores, f has a (non-sync) struct type, fa is stored somewhere as a pointer value, and
+// every other address-of of the same field of X is taken strictly before fa on every path
+// (its block dominates fa's block).
+func detachable(fa *ssa.FieldAddr) bool {
+	al, ok := fa.X.(*ssa.Alloc)
+	if !ok {
+		return false
+	}
+	pt := al.Type().Underlying().(*types.Pointer)
+	sf := structFields(pt.Elem())
+	if sf == nil {
+		return false
+	}
+	ft := sf.Field(fa.Field).Type()
+	if _, isStruct := ft.Underlying().(*types.Struct); !isStruct || isSyncType(ft) {
+		return false
+	}
+	escapes := false
+	for _, r := range *fa.Referrers() {
+		switch u := r.(type) {
+		case *ssa.Store:
+			if u.Val == fa {
+				escapes = true
+			}
+		case *ssa.FieldAddr, *ssa.UnOp, *ssa.DebugRef:
+		default:
+			return false // passed to a call, converted, compared ...: not handled
+		}
+	}
+	if !escapes {
+		return false
+	}
+	for _, r := range *al.Referrers() {
+		switch u := r.(type) {
+		case *ssa.FieldAddr:
+			if u == fa || u.Field != fa.Field {
+				continue
+			}
+			if u.Block() == fa.Block() {
+				before := false
+				for _, in := range u.Block().Instrs {
+					if in == u {
+						before = true
+						break
+					}
+					if in == fa {
+						break
+					}
+				}
+				if !before {
+					return false
+				}
+			} else if !u.Block().Dominates(fa.Block()) {
+				return false
+			}
+		case *ssa.Store:
+			if u.Addr != al {
+				return false
+			}
+		case *ssa.UnOp, *ssa.DebugRef:
+			// whole-value load: would copy the field too; only allowed before fa
+			if un, ok := u.(*ssa.UnOp); ok {
+				if un.Block() != fa.Block() && !un.Block().Dominates(fa.Block()) {
+					return false
+				}
+			}
+		default:
+			return false
+		}
+	}
+	return true
 }
